@@ -14,7 +14,8 @@ Overview: Provides heuristic-based analysis functions for detecting Single Respo
 
 Dependencies: ast module for Python AST analysis, typing for type hints
 
-Exports: count_methods, count_loc, has_responsibility_keyword, has_property_decorator
+Exports: count_methods, count_loc, count_code_lines_in_node, has_responsibility_keyword,
+    has_property_decorator
 
 Interfaces: Functions accepting AST nodes and returning metrics (int, bool)
 
@@ -22,6 +23,10 @@ Implementation: AST walking with filtering logic, heuristic-based thresholds
 """
 
 import ast
+from typing import Any
+
+# Tree-sitter node types that hold comments (TypeScript/JavaScript: comment; Rust: line/block)
+_COMMENT_NODE_TYPES = frozenset(("comment", "line_comment", "block_comment"))
 
 
 def count_methods(class_node: ast.ClassDef) -> int:
@@ -93,6 +98,50 @@ def count_loc(class_node: ast.ClassDef, source: str) -> int:
     # Filter out blank lines and comments (using walrus operator to avoid double strip)
     code_lines = [s for line in lines if (s := line.strip()) and not s.startswith("#")]
     return len(code_lines)
+
+
+def count_code_lines_in_node(node: Any, source: str) -> int:
+    """Count lines of a tree-sitter node that hold code (excludes blank lines and comments).
+
+    A line counts when anything other than whitespace remains on it after the
+    comments inside the node have been removed.
+
+    Args:
+        node: Tree-sitter node (class declaration, struct item, impl block)
+        source: Full source code of the file
+
+    Returns:
+        Number of code lines in the node's span
+    """
+    first_row = node.start_point[0]
+    last_row = node.end_point[0]
+    rows = [bytearray(row) for row in source.encode("utf-8").split(b"\n")[first_row : last_row + 1]]
+    for comment in _find_comment_nodes(node):
+        _blank_out(comment, rows, first_row)
+    return sum(1 for row in rows if row.strip())
+
+
+def _find_comment_nodes(node: Any) -> list[Any]:
+    """Collect all comment nodes below a tree-sitter node."""
+    comments = []
+    stack = [node]
+    while stack:
+        current = stack.pop()
+        if current.type in _COMMENT_NODE_TYPES:
+            comments.append(current)
+        else:
+            stack.extend(current.children)
+    return comments
+
+
+def _blank_out(comment: Any, rows: list[bytearray], first_row: int) -> None:
+    """Overwrite the span of a comment node with spaces."""
+    (start_row, start_col), (end_row, end_col) = comment.start_point, comment.end_point
+    for row_number in range(start_row, end_row + 1):
+        row = rows[row_number - first_row]
+        begin = start_col if row_number == start_row else 0
+        end = end_col if row_number == end_row else len(row)
+        row[begin:end] = b" " * (end - begin)
 
 
 def has_responsibility_keyword(class_name: str, keywords: list[str]) -> bool:
